@@ -11,6 +11,11 @@ gate g (numbered n..n+N-1 after the n inputs) reads two distinct nodes a < b < g
                   fix_gate(g, first=a, second=b)  operands of g are (a, b);   fix_gate(g, first=a) / (g, second=b): that node is an operand of g;
                   fix_gate(.., gate_type=T): type of g is T;  forbid_wire(a, g): a is not an operand of g;  need_normalized: every gate maps (0,0) to 0.
   completeness  NoSolutionError is raised iff the brute force finds no such circuit; no other exception.
+  completeness under constraints with free gates (witness family, no brute force needed): a circuit W with n = N = 3 is drawn first
+                (first two gates independent and in decreasing order of their predecessor pairs, outputs placed so that the gate positions
+                matter), the model is W's truth table (spec evaluator); a fresh finder that gets ONLY fix_gate(g, first, second, type) of one
+                gate of W, or ONLY the forbid_wire calls of the wires W does not use (into one gate / into all gates), must not raise
+                NoSolutionError (W is a witness) and must return a sound circuit.  Class `constraint-with-free-gates+fix-gate|forbid-wire`.
 Interpretation recorded as an assumption: "reading only inputs or earlier gates" is taken as the finder's own search space (two
 *distinct* predecessors, listed in increasing order); circuits that need a repeated operand or a swapped operand order of an
 asymmetric operation (e.g. NOT x1 as LNOT(x1, x0) in the AIG basis, or anything over a single input) are not demanded.
@@ -590,8 +595,12 @@ def run_bounded(rep, quick):
                '(distinct predecessors a<b<g, operation tables from OP() of vlib/spec): all three-valued models with n=2, m=1 (all 81 don\'t-care patterns) for N=1 over AIG/XAIG/FULL and '
                '2 custom lists and N=2 over a rotating basis; sampled n=2, m=2; n<=1 and N=0; need_normalized; 13 shapes of fix_gate/forbid_wire combinations (before and after get_cnf); '
                'models given as TruthTableModel (values and strings), PyFunctionModel, TruthTable; bases as enum, str, list; one or two runs with time_limit (process pool); thorough adds n=3, N<=3; '
+               'witness family (completeness under a constraint while other gates stay free): 40 (quick) / 300 (thorough, plus 40 with n=2 and 40 with N=2) constructed circuits W with n=3 inputs, N=3 gates '
+               'over AIG/XAIG/FULL/{and,or,xor}/{and,xor}, gates 3 and 4 independent and out of canonical order, 1-2 outputs, model = truth table of W; a fresh finder with only fix_gate(g, first, second, type) '
+               'of one gate of W (quick: the last gate for every W, an earlier gate for every second W; thorough: each gate, with and without type) or only the forbid_wire calls for the wires W does not use '
+               '(into one gate / into all gates) must not raise NoSolutionError and must return a sound circuit; '
                'soundness of the returned circuit and completeness of NoSolutionError; non-trivial = n>=2 and N>=1',
-               'n<=2 (thorough 3), m<=2, N<=2 (thorough 3)', exhaustive=False)
+               'n<=2 (thorough 3), m<=2, N<=2 (thorough 3); witness family n=3, N=3, m<=2', exhaustive=False)
     if quick:
         chunks = [('tiny', 2), ('time-limit', 5),
                   ('n2m1', 1, ['AIG', 'XAIG', 'FULL', 'custom:and,xor', 'custom:nand'], 2, 5),
